@@ -24,6 +24,8 @@ fn determinism_cfg() -> Cfg {
     c.max_x = 2;
     c.max_depth = 3;
     c.expr.random = true;
+    // signals may have no column in the header (several read outputs without one included)
+    c.omit_cols = true;
     c
 }
 
@@ -39,7 +41,7 @@ impl Property for C15 {
         "C15"
     }
     fn rule(&self) -> &'static str {
-        "profile `determinism`: programs with 0-4 declares, several C columns and device reads (all three parser hash maps populated), some using random, half of them made static (no device reads); 2-8 repeated parses; 1-4 iterators over one TestCase stepped by a generated interleaving schedule, each with its own identically scripted driver and (via the seed hook) the same seed; two different device scripts. Oracle: (a) all parses equal (ParsedTestCase: PartialEq) and all bound TestCases equal incl. the order of `signals`; (b) every iterator, sequential or interleaved, yields the same items; (c) try_iter_static().is_ok() iff the model's static analysis finds no device read, and then its rows equal the (inputs, expected, line) projection of dynamic runs under both scripts, and of a third run in which the driver's answer to one call is malformed (an entry dropped, repeated or of the wrong width) and the caller goes on after the error item: every item except the one that received the malformed answer equals the static one. Non-trivial: >= 2 declares, or >= 2 interleaved iterators over >= 3 rows, or a static program with >= 3 rows; distinct by source + signals + schedule."
+        "profile `determinism`: programs with 0-4 declares, several C columns and device reads (all three parser hash maps populated), some using random, half of them made static (no device reads; a sixth of those with a planted `declare VF` over constants, which in two cases of three cannot be evaluated); headers that leave signals out; 2-8 repeated parses; 1-4 iterators over one TestCase stepped by a generated interleaving schedule, each with its own identically scripted driver and (via the seed hook) the same seed; two different device scripts. Oracle: (a) all parses equal (ParsedTestCase: PartialEq) and all bound TestCases equal incl. the order of `signals`; (b) every iterator, sequential or interleaved, yields the same items; (c) try_iter_static().is_ok() iff the model's static analysis finds no device read, and then its rows equal the (inputs, expected, line) projection of dynamic runs under both scripts, and of a third run in which the driver's answer to one call is malformed (an entry dropped, repeated or of the wrong width) and the caller goes on after the error item: every item except the one that received the malformed answer equals the static one. Non-trivial: >= 2 declares, or >= 2 interleaved iterators over >= 3 rows, or a static program with >= 3 rows; distinct by source + signals + schedule."
     }
     fn cases(&self, tier: Tier) -> u64 {
         match tier {
@@ -48,7 +50,7 @@ impl Property for C15 {
         }
     }
     fn required_classes(&self) -> Vec<&'static str> {
-        vec!["declares>=2", "interleaved>=2", "static-program", "non-static-program", "random", "C-row", "reads-device", "rows-after-malformed-answer"]
+        vec!["declares>=2", "interleaved>=2", "static-program", "non-static-program", "random", "C-row", "reads-device", "rows-after-malformed-answer", "static-program-with-constant-declare"]
     }
     fn run(&self, s: &Streams) -> CaseOut {
         let mut out = CaseOut::new();
@@ -59,7 +61,22 @@ impl Property for C15 {
             cfg.reads = false;
             cfg.max_virtual = 0;
         }
-        let built = gen_case(&mut Ch::new(&s[0]), &cfg);
+        let mut built = gen_case(&mut Ch::new(&s[0]), &cfg);
+        // a static program may still declare virtual signals, as long as they read nothing; in a
+        // sixth of the static cases one is planted whose expression cannot be evaluated: every
+        // checked row is then an error item, in the static run and in every dynamic one
+        if !cfg.reads && dch.chance(1, 6) {
+            use crate::model::*;
+            let e = match dch.upto(3) {
+                0 => Expr::bin(BinOp::Div, Expr::lit(6), Expr::Group(Box::new(Expr::bin(BinOp::Sub, Expr::lit(2), Expr::lit(2))))),
+                1 => Expr::bin(BinOp::Rem, Expr::lit(5), Expr::lit(0)),
+                _ => Expr::bin(BinOp::Add, Expr::lit(1), Expr::lit(2)),
+            };
+            let at = dch.upto(built.prog.stmts.len() + 1);
+            built.prog.stmts.insert(at, Stmt::Declare("VF".into(), e));
+            built.analysis = analyse(&built.prog);
+            out.class("static-program-with-constant-declare");
+        }
         let text = built_text(&built);
         let spec = gen_spec(
             &mut dch,
